@@ -48,12 +48,21 @@ func c18Case(r *evid.Run, tier string, idx int, g *rng.R) {
 		// every fourth case runs the evaluator on the independent Cursor implementation (R-ref)
 		w, err = newRefWorld(d)
 		r.Count("cases_on_reference_cursor", 1)
+		if err == nil && idx%8 == 7 {
+			// identity of nodes is Pos(): this view hands out a fresh cursor value on every access
+			w.lazy = true
+			r.Count("cases_on_lazily_allocated_cursors", 1)
+		}
 	}
 	if err != nil {
 		r.Inconclusive("store tree mismatch: " + err.Error())
 		return
 	}
 	shape := d.Shape()
+	rootC := w.m.Root
+	if w.lazy {
+		rootC = bridge.LazyOf(rootC)
+	}
 	elems, attrs, targets := vocab(d)
 	axes := append(append([]string{}, xast.Axes...), "child", "child", "child", "descendant")
 	cfg := &xast.Cfg{Elems: elems, Attrs: attrs, Prefixes: []string{"p", "q"}, Targets: targets, Axes: axes,
@@ -85,7 +94,7 @@ func c18Case(r *evid.Run, tier string, idx int, g *rng.R) {
 			P := xast.Path{Abs: true, Steps: append([]xast.Step{}, full.Steps[:cut]...)}
 			R := xast.Path{Steps: append([]xast.Step{}, full.Steps[cut:]...)}
 			// a DSlash step at the edge is rendered explicitly by the renderer
-			pres, perr := ExecStr(w.m.Root, xast.String(P), w.opts...)
+			pres, perr := ExecStr(rootC, xast.String(P), w.opts...)
 			r.Eval(1)
 			if perr != nil {
 				r.Violate("split/prefix-error", map[string]any{"case": idx, "what": fmt.Sprintf("%s fails (%s) although %s succeeds", xast.String(P), errStr(perr), xast.String(full)), "document": d.Dump()})
@@ -102,7 +111,7 @@ func c18Case(r *evid.Run, tier string, idx int, g *rng.R) {
 				sub, serr := ExecStr(c, rs, w.opts...)
 				r.Eval(1)
 				if serr != nil {
-					r.Violate("split/suffix-error", map[string]any{"case": idx, "what": fmt.Sprintf("Exec(%s, %s) fails: %s", w.m.ToA[c].Path(), rs, errStr(serr)), "document": d.Dump()})
+					r.Violate("split/suffix-error", map[string]any{"case": idx, "what": fmt.Sprintf("Exec(%s, %s) fails: %s", w.m.ToA[bridge.Canon(c)].Path(), rs, errStr(serr)), "document": d.Dump()})
 					bad = true
 					break
 				}
@@ -209,7 +218,7 @@ func c18Case(r *evid.Run, tier string, idx int, g *rng.R) {
 		}
 		wholeSet, _ := whole.(refeval.NodeSet)
 		// the same through sub-queries: Exec(root, head) then Exec(n, [.//]tail) from every node
-		pres, perr := ExecStr(w.m.Root, xast.String(xast.Path{Head: head}), append(append([]xsel.ContextApply{}, w.opts...), mixBind...)...)
+		pres, perr := ExecStr(rootC, xast.String(xast.Path{Head: head}), append(append([]xsel.ContextApply{}, w.opts...), mixBind...)...)
 		pns, isSet := pres.(xsel.NodeSet)
 		r.Eval(1)
 		if perr != nil || !isSet {
@@ -226,12 +235,12 @@ func c18Case(r *evid.Run, tier string, idx int, g *rng.R) {
 		bad := false
 		kinds := map[string]bool{}
 		for _, c := range pns {
-			kinds[w.m.ToA[c].Kind.String()] = true
+			kinds[w.m.ToA[bridge.Canon(c)].Kind.String()] = true
 			res, serr := ExecStr(c, subs, w.opts...)
 			r.Eval(1)
 			sns, ok := res.(xsel.NodeSet)
 			if serr != nil || !ok {
-				r.Violate("mixed-prefix/suffix-error", map[string]any{"case": idx, "what": fmt.Sprintf("Exec(%s, %s) fails: %s", w.m.ToA[c].Path(), subs, errStr(serr)), "document": d.Dump()})
+				r.Violate("mixed-prefix/suffix-error", map[string]any{"case": idx, "what": fmt.Sprintf("Exec(%s, %s) fails: %s", w.m.ToA[bridge.Canon(c)].Path(), subs, errStr(serr)), "document": d.Dump()})
 				bad = true
 				break
 			}
